@@ -418,6 +418,29 @@ pub fn c12_case(b: &Built, pats: &[Vec<u8>], hay: &[u8], m: Method, acc: &mut Ac
             }
         }
     }
+    if bad.is_none() {
+        // a segmented source: it answers None once after `cut` bytes. The search must stop there -
+        // having reported exactly the matches of the bytes delivered so far and pulled exactly those
+        // bytes - and leave the rest to the caller (streaming input)
+        let cuts: Vec<usize> = if b.cfg.variant == Variant::Char {
+            let s = std::str::from_utf8(hay).unwrap();
+            (0..=hay.len()).filter(|&k| s.is_char_boundary(k)).collect()
+        } else {
+            (0..=hay.len()).collect()
+        };
+        for cut in cuts {
+            let (got_cut, pulled) = b.auto.run_cut(m, hay, cut);
+            let exp_cut = b.auto.run(slice_m, &hay[..cut]);
+            acc.traces += 1;
+            if got_cut != exp_cut || pulled != cut {
+                bad = Some(format!(
+                    "{} over a source that answers None once after {cut} of {} bytes: it reported {:?} and pulled {pulled} bytes before returning None; the {cut} bytes delivered contain {:?}",
+                    m.name(), hay.len(), got_cut, exp_cut
+                ));
+                break;
+            }
+        }
+    }
     if let Some(w) = bad {
         let mut c = e2::case_json(&b.cfg, pats, None);
         let o = c.as_object_mut().unwrap();
